@@ -33,7 +33,7 @@ func init() {
 }
 
 func startsMessage(name string) bool {
-	n := strings.TrimPrefix(strings.TrimPrefix(name, "invalid:"), "epilogue:")
+	n := strings.TrimPrefix(strings.TrimPrefix(strings.TrimPrefix(name, "invalid:"), "epilogue:"), "late:")
 	return strings.HasPrefix(n, "NextWriter") || strings.HasPrefix(n, "WriteMessage") || strings.HasPrefix(n, "WriteJSON")
 }
 
